@@ -26,10 +26,10 @@
 
   Executable model; total (fuel / structural recursion), kernel-reducible (used by `decide` in
   Properties/C06).  Stored, fixed-Huffman and dynamic-Huffman blocks (canonical codes of any
-  complete code lengths, lengths sent without repeat codes) are proved correct against the
-  reference encoder of Model/DeflEnc.lean in Proofs/Inflate*.lean (Properties/C06_Inflate.lean);
-  repeat codes in the header, incomplete codes and the error paths are covered by the
-  differential test against zlib only.
+  complete code lengths; the lengths sent one by one, or with the repeat codes 16/17/18 in any
+  complete code-length code and any HCLEN) are proved correct against the reference encoder of
+  Model/DeflEnc.lean in Proofs/Inflate*.lean (Properties/C06_Inflate.lean, C06_InflateRle.lean);
+  incomplete codes and the error paths are covered by the differential test against zlib only.
 -/
 import Lomond.Model.Basic
 
